@@ -129,8 +129,9 @@ class Run:
         for o in self.oracles:
             o.finish(self)
         w = self.world
-        self.h.update(repr(sorted((h, obs(o)) for h, o in w.heap.items() if _heapish(o))).encode())
-        self.h.update(repr(sorted((p, bytes(d)) for p, d in w.fs.files.items())).encode())
+        self.h.update(repr(sorted((h, obs(o)) for h, o in w.heap.items()
+                                  if _heapish(o) or isinstance(o, list))).encode())
+        self.h.update(repr(sorted((w.rel(p), bytes(d)) for p, d in w.fs.files.items())).encode())
         self.stats["fs_opens"] += w.fs.opens
         for k, v in w.fs.fault_counts.items():
             self.stats["fault:X-io:" + k] += v
